@@ -929,6 +929,46 @@ func (g *c07gen) slogProg(maxNodes int) (string, []*c07sop) {
 	return name, ops
 }
 
+// groups slice aliasing: a chain of WithGroup calls (so that the pending-groups slice has spare capacity),
+// then sibling WithGroup / WithAttrs children of the last handler; the first sibling logs last
+func (g *c07gen) slogSiblingProg() (string, []*c07sop) {
+	r := g.r
+	var ops []*c07sop
+	w := int64(1)
+	cur, nodes := 0, 1
+	if r.Chance(40) {
+		as, xs := c07attrs(r, r.Range(1, 2))
+		ops = append(ops, &c07sop{kind: 2, node: cur, attrs: as, xs: xs, w: w})
+		cur, nodes = nodes, nodes+1
+	}
+	depth := r.Range(1, 6)
+	names := []string{"g1", "g2", "g3", "g4", "g5", "g6"}
+	for i := 0; i < depth; i++ {
+		ops = append(ops, &c07sop{kind: 3, node: cur, g: names[i], w: w})
+		cur, nodes = nodes, nodes+1
+	}
+	var kids []int
+	nk := r.Range(2, 4)
+	for i := 0; i < nk; i++ {
+		w++
+		if r.Chance(75) {
+			ops = append(ops, &c07sop{kind: 3, node: cur, g: fmt.Sprintf("sib%d", i), w: w})
+		} else {
+			as, xs := c07attrs(r, r.Range(1, 2))
+			ops = append(ops, &c07sop{kind: 2, node: cur, attrs: as, xs: xs, w: w})
+		}
+		kids = append(kids, nodes)
+		nodes++
+	}
+	for i := len(kids) - 1; i >= 0; i-- {
+		as, xs := c07attrs(r, r.Range(1, 2))
+		ops = append(ops, &c07sop{kind: 4, node: kids[i], hi: true, msg: "m", attrs: as, xs: xs, w: w})
+	}
+	as, xs := c07attrs(r, 1)
+	ops = append(ops, &c07sop{kind: 4, node: cur, hi: true, msg: "m", attrs: as, xs: xs, w: w})
+	return "", ops
+}
+
 func (g *c07gen) emitSlog(c *Ctx, comp *c07comp, name string, ops []*c07sop) {
 	var opx, obs []SX
 	for _, o := range ops {
@@ -990,7 +1030,7 @@ func c07(c *Ctx) {
 	r := NewRNG(c.Seed)
 	nSib, nRand, maxNodes := 900, 1500, 14
 	if c.Thorough {
-		nSib, nRand, maxNodes = 30000, 60000, 40
+		nSib, nRand, maxNodes = 12000, 25000, 40
 	}
 	for i := 0; i < nSib; i++ {
 		g := newC07gen(r.Fork())
@@ -1013,12 +1053,15 @@ func c07(c *Ctx) {
 	}
 	nSlog := 500
 	if c.Thorough {
-		nSlog = 20000
+		nSlog = 8000
 	}
 	for i := 0; i < nSlog; i++ {
 		g := newC07gen(r.Fork())
 		comp := g.comp(2, false)
 		name, ops := g.slogProg(12)
+		if i%3 == 0 {
+			name, ops = g.slogSiblingProg()
+		}
 		g.emitSlog(c, comp, name, ops)
 	}
 }
